@@ -113,10 +113,37 @@ package config
 //@   ensures [failure-policy] result0.Webhook.MutatingWebhook.FailurePolicy != nil && (cfgV1.FailurePolicy == nil ==> *result0.Webhook.MutatingWebhook.FailurePolicy == v1.Fail)
 
 // ---- C10: assembly of the effective configuration (v1) ----------------------------------------
-//@ trusted func (*HookConfigV1).CheckOnKubernetesEvent
+//@ pure k8s.io/apimachinery/pkg/runtime/schema.ParseGroupVersion kube_events_manager.FormatFieldSelector
+
+// C10: a kubernetes binding is rejected iff its apiVersion, label selector or field selector is
+// invalid, or it combines nameSelector.matchNames with a fieldSelector on metadata.name.
+//@ func (*HookConfigV1).CheckOnKubernetesEvent
+//@   prop C10
 //@   modifies nothing
-//@ trusted func (*HookConfigV1).CheckAdmission
+//@   ensures [bad-api-version-rejected]    kubeCfg.ApiVersion != "" && errof(schema.ParseGroupVersion(kubeCfg.ApiVersion)) != nil ==> result != nil
+//@   ensures [bad-label-selector-rejected] kubeCfg.LabelSelector != nil && errof(kubeeventsmanager.FormatLabelSelector(kubeCfg.LabelSelector)) != nil ==> result != nil
+//@   ensures [bad-field-selector-rejected] kubeCfg.FieldSelector != nil && errof(kubeeventsmanager.FormatFieldSelector(kubeCfg.FieldSelector)) != nil ==> result != nil
+//@   ensures [name-and-field-selector-rejected] kubeCfg.NameSelector != nil && len(kubeCfg.NameSelector.MatchNames) > 0 && kubeCfg.FieldSelector != nil
+//@        && exists(j, 0, len(kubeCfg.FieldSelector.MatchExpressions), kubeCfg.FieldSelector.MatchExpressions[j].Field == "metadata.name") ==> result != nil
+//@   ensures [valid-accepted] (kubeCfg.ApiVersion == "" || errof(schema.ParseGroupVersion(kubeCfg.ApiVersion)) == nil) && (kubeCfg.LabelSelector == nil || errof(kubeeventsmanager.FormatLabelSelector(kubeCfg.LabelSelector)) == nil)
+//@        && (kubeCfg.FieldSelector == nil || errof(kubeeventsmanager.FormatFieldSelector(kubeCfg.FieldSelector)) == nil) && (kubeCfg.NameSelector == nil || len(kubeCfg.NameSelector.MatchNames) == 0 || kubeCfg.FieldSelector == nil) ==> result == nil
+//@   loop 1
+//@     invariant 0 <= iter() && iter() <= len(kubeCfg.FieldSelector.MatchExpressions)
+//@     invariant forall(j, 0, iter(), kubeCfg.FieldSelector.MatchExpressions[j].Field == "metadata.name" ==> allErr != nil)
+//@     invariant (kubeCfg.ApiVersion != "" && errof(schema.ParseGroupVersion(kubeCfg.ApiVersion)) != nil ==> allErr != nil) && (kubeCfg.LabelSelector != nil && errof(kubeeventsmanager.FormatLabelSelector(kubeCfg.LabelSelector)) != nil ==> allErr != nil)
+//@        && (kubeCfg.FieldSelector != nil && errof(kubeeventsmanager.FormatFieldSelector(kubeCfg.FieldSelector)) != nil ==> allErr != nil)
+
+// C10: an admission binding is rejected iff an includeSnapshotsFrom name does not denote exactly
+// one kubernetes binding, or its label selector or its namespace label selector is invalid.
+//@ func (*HookConfigV1).CheckAdmission
+//@   prop C10
 //@   modifies nothing
+//@   ensures [bad-snapshots-rejected] forall(k, 0, len(cfgV1.IncludeSnapshotsFrom), nNamed(kubeConfigs, cfgV1.IncludeSnapshotsFrom[k], len(kubeConfigs)) != 1 ==> result != nil)
+//@   ensures [bad-label-selector-rejected] cfgV1.LabelSelector != nil && errof(kubeeventsmanager.FormatLabelSelector(cfgV1.LabelSelector)) != nil ==> result != nil
+//@   ensures [bad-namespace-selector-rejected] cfgV1.Namespace != nil && cfgV1.Namespace.LabelSelector != nil && errof(kubeeventsmanager.FormatLabelSelector(cfgV1.Namespace.LabelSelector)) != nil ==> result != nil
+//@   ensures [accepted] result == nil ==> forall(k, 0, len(cfgV1.IncludeSnapshotsFrom), nNamed(kubeConfigs, cfgV1.IncludeSnapshotsFrom[k], len(kubeConfigs)) == 1)
+//@   ensures [valid-accepted] len(cfgV1.IncludeSnapshotsFrom) == 0 && (cfgV1.LabelSelector == nil || errof(kubeeventsmanager.FormatLabelSelector(cfgV1.LabelSelector)) == nil)
+//@        && (cfgV1.Namespace == nil || cfgV1.Namespace.LabelSelector == nil || errof(kubeeventsmanager.FormatLabelSelector(cfgV1.Namespace.LabelSelector)) == nil) ==> result == nil
 //@ trusted func (*HookConfigV1).ConvertConversion
 //@   modifies nothing
 //@ trusted func (*HookConfig).ConvertOnStartup
